@@ -4,7 +4,7 @@ from __future__ import annotations
 
 from ..core import rng_from
 from ..crashloop import ROUTES, explore
-from ..swarm import draw_smc_scenario
+from ..swarm import PRECONDS_WITH_FLOW, draw_smc_scenario
 from . import c11 as _c11
 from .common import COMPONENTS, crash_case, shrink_scenario_candidates
 
@@ -63,7 +63,7 @@ def _draw(case):
         particles=(12, 32) if quick else (12, 64),
         kernel_steps=(1, 2),
         checkpoint_modes=("path", "auto", "callback", "none"),
-        hard=bool(case["run_index"] % 2), offset_prob=0.15, reuse_prob=0.3,
+        hard=bool(case["run_index"] % 2), offset_prob=0.15, reuse_prob=0.3, preconds=PRECONDS_WITH_FLOW,
     )
 
 
